@@ -3,6 +3,7 @@
 mod c05;
 mod c15;
 mod c02;
+mod c03;
 mod c17;
 mod util;
 
@@ -17,6 +18,7 @@ fn main() {
     match argv[1].as_str() {
         "c05" => c05::main(&args),
         "c15" => c15::main(&args),
+        "c03" => c03::main(&args),
         "c17" => c17::main(&args),
         "c02" => c02::main(&args),
         other => {
